@@ -1394,6 +1394,7 @@ def transplant(annot_text, new_ss):
     pos = 0  # position in full
     edits = 0
     displaced = 0
+    dropped = 0
     for tag, i1, i2, j1, j2 in sm.get_opcodes():
         if tag == "equal":
             continue
@@ -1421,12 +1422,263 @@ def transplant(annot_text, new_ss):
             for (x, y) in ins_spans:
                 if a <= x and y <= b:
                     seg = full[x:y]
+                    if tag == "delete" and _is_proof_hint(seg) and not _only_braces(bss[i1:i2]):
+                        # the statements on both sides of this proof hint were deleted: a hint for code that is gone is
+                        # dropped with it (dropping a hint can only make the verifier prove less, never more)
+                        dropped += 1
+                        continue
                     out.append("\n" + seg + ("" if seg.endswith("\n") else "\n"))
                     displaced += 1
             pos = b
     out.append(full[pos:])
     woven = "".join(out)
-    return woven, {"identical": False, "edits": edits, "displaced": displaced}
+    return woven, {"identical": False, "edits": edits, "displaced": displaced, "dropped": dropped}
+
+
+def _is_proof_hint(seg):
+    """annotation segment that consists of ghost statements only (proof blocks, ghost lets, asserts)"""
+    t = seg.replace(INS_OPEN, "").replace(INS_CLOSE, "")
+    t = re.sub(r"^[ \t]*//\+[{}][^\n]*\n?", "", t, flags=re.M).strip()
+    return bool(re.match(r"(proof\s*\{|assert\b|let\s+ghost\b)", t)) and not re.search(r"\b(requires|ensures|invariant|invariant_except_break|decreases|assume|admit)\b", t)
+
+
+def _only_braces(toks):
+    return all(t in ("{", "}", ";") for t in toks)
+
+
+
+# ------------------------------------------------------------------ equivalence hints for expression-level edits
+# When an edit rewrites ONE expression inside an otherwise unchanged statement into another expression over the same
+# machine integers, the proof text of the unit still talks about the old form. The weaver then adds, in front of the
+# statement, the ghost line
+#       proof { assert((NEW) == (OLD)) by (bit_vector); }      // @eqv-hint
+# i.e. an obligation for Verus' bit-vector back end. Nothing is assumed: the executable text stays the NEW text (its
+# overflow / bounds obligations are generated from it as usual); if the hint does not verify - or does not type-check -
+# the unit is re-woven without hints and decided as before (tools/check.py run_unit).
+EQV_MARK = "// @eqv-hint"
+_SEP = (";", "{", "}")
+_ASSIGN = ("=", "+=", "-=", "*=", "/=", "%=", "&=", "|=", "^=", "<<=", ">>=")
+_HEADKW = ("if", "while", "return")
+_BINOP = ("+", "-", "*", "/", "%", "&", "|", "^", "<<", ">>", "==", "!=", "<", "<=", ">", ">=", "&&", "||")
+_INT_T = ("u8", "u16", "u32", "u64", "u128", "usize", "i8", "i16", "i32", "i64", "i128", "isize", "bool",
+          "BigDigit", "DoubleBigDigit", "SignedDoubleBigDigit")
+
+
+def _expr_ok(ts):
+    """a pure operator expression over variables, paths and literals (no calls, fields, indexing, references, blocks)"""
+    if not ts:
+        return False
+    prev = None
+    for k, t in enumerate(ts):
+        nxt = ts[k + 1] if k + 1 < len(ts) else None
+        if t in ("(", ")", "::", "as", "!", "true", "false") or t in _BINOP:
+            if t == "&" and (prev is None or prev in _BINOP or prev in ("(", "!", "as")):
+                return False            # a reference, not a bit-and
+            if t == "|" and (prev is None or prev in _BINOP or prev == "("):
+                return False            # a closure
+        elif re.match(r"^[0-9][0-9a-zA-Z_]*$", t):
+            pass
+        elif re.match(r"^[A-Za-z_][A-Za-z_0-9]*$", t):
+            if t in ("mut", "ref", "let", "if", "else", "match", "loop", "while", "for", "in", "move", "return", "break", "continue", "unsafe", "self", "Self"):
+                return False
+            if nxt == "(" or nxt == "!" and k + 2 < len(ts) and ts[k + 2] == "(":
+                return False            # call / macro
+            if prev == "as" and t not in _INT_T:
+                return False
+        else:
+            return False
+        prev = t
+    depth = 0
+    for t in ts:
+        depth += (t == "(") - (t == ")")
+        if depth < 0:
+            return False
+    return depth == 0
+
+
+def _stmt_bounds(ts, lo, hi):
+    a = lo
+    while a > 0 and ts[a - 1] not in _SEP:
+        a -= 1
+    b = hi
+    while b < len(ts) and ts[b] not in _SEP:
+        b += 1
+    return a, b
+
+
+def _expr_bounds(ts, a, b, lo, hi):
+    """widen [lo, hi) inside the statement [a, b) to the enclosing operator expression"""
+    need_open = need_close = 0
+    d = 0
+    for t in ts[lo:hi]:
+        if t in ("(", "["):
+            d += 1
+        elif t in (")", "]"):
+            if d == 0:
+                need_open += 1
+            else:
+                d -= 1
+    need_close = d
+    i = lo
+    pend = 0
+    while i > a:
+        t = ts[i - 1]
+        if t in (")", "]"):
+            pend += 1
+        elif t in ("(", "["):
+            if pend:
+                pend -= 1
+            elif need_open:
+                need_open -= 1
+            else:
+                break
+        elif pend == 0 and need_open == 0 and (t in _ASSIGN or t in _HEADKW or t in (",", "=>", "let", "in")):
+            break
+        i -= 1
+    j = hi
+    pend = 0
+    while j < b:
+        t = ts[j]
+        if t in ("(", "["):
+            pend += 1
+        elif t in (")", "]"):
+            if pend:
+                pend -= 1
+            elif need_close:
+                need_close -= 1
+            else:
+                break
+        elif pend == 0 and need_close == 0 and t in (",", "=>", "else"):
+            break
+        j += 1
+    return i, j
+
+
+def _strip_deref(ts):
+    """unary deref of a plain variable is an atom: `* x` -> `x` (for the shape check only)"""
+    r = []
+    for k, t in enumerate(ts):
+        if t == "*" and (k == 0 or ts[k - 1] in _BINOP or ts[k - 1] in ("(", "!")) and k + 1 < len(ts) and re.match(r"^[A-Za-z_]\w*$", ts[k + 1]):
+            continue
+        r.append(t)
+    return r
+
+
+_PRIM_METHODS = {"is_even": ["%", "2", "==", "0"], "is_odd": ["%", "2", "!=", "0"], "is_zero": ["==", "0"]}
+
+
+def _expand_prims(ts):
+    """`x.is_even()` / `x.is_odd()` / `x.is_zero()` on a plain variable, by their definitions for primitive integers
+    (num-integer / num-traits); on any other receiver type the hint does not type-check in bit-vector mode and is dropped"""
+    out = []
+    k = 0
+    while k < len(ts):
+        if k + 4 < len(ts) + 0 and re.match(r"^[A-Za-z_]\w*$", ts[k]) and ts[k + 1] == "." and ts[k + 2] in _PRIM_METHODS and ts[k + 3] == "(" and ts[k + 4] == ")" \
+                and (k == 0 or ts[k - 1] not in (".", "::")):
+            out += ["(", ts[k]] + _PRIM_METHODS[ts[k + 2]] + [")"]
+            k += 5
+        else:
+            out.append(ts[k])
+            k += 1
+    return out
+
+
+def _split_assign(ts):
+    d = 0
+    for k, t in enumerate(ts):
+        if t in ("(", "["):
+            d += 1
+        elif t in (")", "]"):
+            d -= 1
+        elif d == 0 and t in _ASSIGN and k > 0:
+            return ts[:k], t, ts[k + 1:]
+    return None
+
+
+def eqv_hints(bss, new_ss):
+    """[(old statement start, old statement end, kind, NEW expr text, OLD expr text)] for expression-level edits"""
+    sm = difflib.SequenceMatcher(a=bss, b=new_ss, autojunk=False)
+    stmts = {}
+    for tag, i1, i2, j1, j2 in sm.get_opcodes():
+        if tag == "equal":
+            continue
+        if any(t in _SEP for t in bss[i1:i2]) or any(t in _SEP for t in new_ss[j1:j2]):
+            return []                   # a structural edit somewhere in this function: no hints at all
+        a, b = _stmt_bounds(bss, i1, i2)
+        c, d = _stmt_bounds(new_ss, j1, j2)
+        if stmts.setdefault(a, (a, b, c, d)) != (a, b, c, d):
+            return []
+    out = []
+    for a, (a, b, c, d) in sorted(stmts.items()):
+        so, sn = bss[a:b], new_ss[c:d]
+        old_e = new_e = None
+        ao, an = _split_assign(so), _split_assign(sn)
+        if ao and an and ao[0] == an[0] and ao[1] != an[1]:
+            # `X op= E` against `X = E'` (or another compound form): compare the values assigned
+            lhs = ao[0][1:] if ao[0][0] == "let" else ao[0]
+            if _expr_ok(_strip_deref(lhs)):
+                old_e = ao[2] if ao[1] == "=" else ["("] + lhs + [")", ao[1][:-1], "("] + ao[2] + [")"]
+                new_e = an[2] if an[1] == "=" else ["("] + lhs + [")", an[1][:-1], "("] + an[2] + [")"]
+        if old_e is None:
+            pre = 0
+            while pre < min(len(so), len(sn)) and so[pre] == sn[pre]:
+                pre += 1
+            suf = 0
+            while suf < min(len(so), len(sn)) - pre and so[len(so) - 1 - suf] == sn[len(sn) - 1 - suf]:
+                suf += 1
+            oi, oj = _expr_bounds(so, 0, len(so), pre, len(so) - suf)
+            ni, nj = _expr_bounds(sn, 0, len(sn), pre, len(sn) - suf)
+            if so[:oi] != sn[:ni] or so[oj:] != sn[nj:]:
+                continue
+            old_e, new_e = so[oi:oj], sn[ni:nj]
+        old_e, new_e = _expand_prims(old_e), _expand_prims(new_e)
+        if old_e == new_e or not (_expr_ok(_strip_deref(old_e)) and _expr_ok(_strip_deref(new_e))):
+            continue
+        kind = "while" if so[:1] == ["while"] else "stmt"
+        out.append((a, b, kind, join(new_e), join(old_e)))
+    return out
+
+
+def add_eqv_hints(annot_text, new_ss):
+    """annot_text with `@eqv-hint` proof lines inserted (as annotations) for expression-level edits; (text, hints)"""
+    segs = split_annotated(annot_text)
+    full = "".join(t for _, t in segs)
+    btoks = base_tokens(segs)
+    bss = strs(btoks)
+    if bss == new_ss:
+        return annot_text, []
+    hints = eqv_hints(bss, new_ss)
+    if not hints:
+        return annot_text, []
+    inserts = []   # (offset in full, text)
+    for (a, b, kind, new_e, old_e) in hints:
+        line = "\n//+{\n        proof { assert((%s) == (%s)) by (bit_vector); } %s\n//+}\n" % (new_e, old_e, EQV_MARK)
+        inserts.append((btoks[a].a, line))
+        if kind == "while" and b < len(btoks) and bss[b] == "{":
+            # the condition is re-evaluated with other values: restate the equality at the top of the body and behind the loop
+            if b + 1 < len(btoks):
+                inserts.append((btoks[b + 1].a, line))
+            depth = 0
+            for k in range(b, len(btoks)):
+                depth += (bss[k] == "{") - (bss[k] == "}")
+                if depth == 0:
+                    if k + 1 < len(btoks):
+                        inserts.append((btoks[k + 1].a, line))
+                    break
+    # offsets must not fall inside an existing inserted segment
+    spans = []
+    off = 0
+    for kind, t in segs:
+        if kind == "ins":
+            spans.append((off, off + len(t)))
+        off += len(t)
+    for at, _ in inserts:
+        if any(x < at < y for x, y in spans):
+            return annot_text, []
+    text = full
+    for at, line in sorted(inserts, key=lambda z: -z[0]):
+        text = text[:at] + line + text[at:]
+    return text, [{"new": h[3], "old": h[4], "kind": h[2]} for h in hints]
 
 
 def erase(woven_text):
